@@ -42,6 +42,7 @@ from typing import (
 import sys
 import experimaestro
 from experimaestro.utils import logger
+from experimaestro.utils import verif as _verif
 from contextlib import contextmanager
 from experimaestro.core.types import DeprecatedAttribute, ObjectType
 from .context import SerializationContext, SerializedPath, SerializedPathLoader
@@ -184,6 +185,8 @@ class HashComputer:
             hash_logger.debug(
                 "updating hash (%s): %s", hash(str(self.config)), str(bytes)
             )
+        if _verif.ACTIVE and _verif.tap is not None:
+            _verif.tap("hash", (self, bytes))
         self._hasher.update(bytes)
 
     def update(self, value, *, myself=False):  # noqa: C901
